@@ -27,6 +27,7 @@ func c20Len() int {
 
 // The three validation patterns accept exactly the documented shape (decided by z3 as equality of
 // regular languages on strings up to the stated length).
+//
 //verif:entry HarnessQueryPathShape unwind=4 conform=12 reach=valid,invalid solverms=60000
 func HarnessQueryPathShape() {
 	s := vrt.String("path")
@@ -69,7 +70,7 @@ func HarnessQueryParametersShape() {
 // Parse / print round trip on well-formed paths built from pieces (the capture-group extraction of Go's
 // regexp engine runs natively, so the pieces are enumerated from a small concrete set).
 var c20Pieces = []string{"a", "qc", "A-b_9", "x_", "-"}
-var c20Entries = []string{"e", "a/b", "cfg-1/sub_2/x", "_"}
+var c20Entries = []string{"e", "a/b", "cfg-1/sub_2/x", "_", "tpc/", "/clusters", "a//b", "//"}
 var c20RunTypeNames = []string{"PHYSICS", "ANY", "NULL", "CALIBRATION_FHR", "physics", "NOPE", "PHYSICS "}
 
 //verif:entry HarnessParsePrintRoundTrip unwind=8 conform=12 reach=parsed,rejected
